@@ -38,12 +38,13 @@ def type_records(types: list[tuple]) -> str:
 
 def gen_programs(cap: int, keymode: str, dtmode: str, types: list[tuple],
                  roles: list[str], max_calls: int, emit: bool = True,
+                 insts: tuple = ('both',),
                  simulate: int | None = None, seed: int = 0,
                  invariants: list[str] | None = None, workers: int = 6,
                  ) -> tuple[TLCResult, list[dict[str, Any]]]:
     defs = (f'Cap == {cap}\nKeyMode == "{keymode}"\nDtMode == "{dtmode}"\n'
             f'Types == {type_records(types)}\nRoles == {tla(set(roles))}\n'
-            f'MaxCalls == {max_calls}\n')
+            f'MaxCalls == {max_calls}\nInsts == {tla(set(insts))}\n')
     name = 'MC_Bucket'
     mod = instantiate('Bucket', name, defs)
     invs = invariants if invariants is not None else [
@@ -91,6 +92,19 @@ def make_tensor(types: list[tuple], ty: int, tid: int, rank: int,
     return t.to(DT[dt])
 
 
+def members(r: int, role: str) -> set[int]:
+    return {'world': {0, 1, 2, 3}, 'row': {0, 1} if r in (0, 1) else {2, 3},
+            'col': {0, 2} if r in (0, 2) else {1, 3}, 'self': {r}}[role]
+
+
+def participates(r: int, c: dict[str, Any]) -> bool:
+    inst = c.get('inst', 'both')
+    if inst == 'both' or c['g'] in ('world', 'self'):
+        return True
+    first = 0 in members(r, c['g'])
+    return first if inst == 'first' else not first
+
+
 def execute(d: dict[str, Any], types: list[tuple], cap: int,
             policy: simdist.Policy, bucketed_world: bool = True,
             ) -> dict[str, Any]:
@@ -120,6 +134,8 @@ def execute(d: dict[str, Any], types: list[tuple], cap: int,
         for c in prog:
             if c['op'] == 'flush':
                 comm.flush_allreduce_buckets()
+                continue
+            if not participates(r, c):
                 continue
             t = make_tensor(types, c['ty'], c['id'], r, c['sym'])
             fn = comm.allreduce if (c['op'] == 'ar' or not bucketed_world) \
